@@ -85,14 +85,34 @@ pub fn serialise(t: &dyn Aml) -> Vec<u8> {
             v
         }
         4 => {
-            let mut s = acpi_tables::sdt::Sdt::new(*b"SINK", 36, 1, *b"OEMOEM", *b"OEMTABLE", 1);
-            t.to_aml_bytes(&mut s);
-            let all = s.as_slice();
-            // the generic table maintains its own header: Length must have followed the pushes
-            if u32::from_le_bytes([all[4], all[5], all[6], all[7]]) as usize != all.len() {
-                note_mismatch();
+            // the generic table as a sink: the table it ends up as (header Length and Checksum included) must depend only
+            // on the concatenation of the bytes, not on how they were chunked: compare with one slice append of the same
+            // bytes; also with the table pre-filled so that the 256-byte length carry falls inside the object
+            let mut v = Vec::new();
+            t.to_aml_bytes(&mut v);
+            let mut body = Vec::new();
+            for prefill in [0usize, (220usize).saturating_sub(v.len() / 2)] {
+                let mk = || {
+                    let mut s = acpi_tables::sdt::Sdt::new(*b"SINK", 36, 1, *b"OEMOEM", *b"OEMTABLE", 1);
+                    s.append_slice(&vec![0x5a; prefill]);
+                    s
+                };
+                let mut s = mk();
+                t.to_aml_bytes(&mut s);
+                let mut whole = mk();
+                whole.append_slice(&v);
+                let all = s.as_slice();
+                if u32::from_le_bytes([all[4], all[5], all[6], all[7]]) as usize != all.len()
+                    || all != whole.as_slice()
+                    || all.iter().fold(0u8, |a, x| a.wrapping_add(*x)) != 0
+                {
+                    note_mismatch();
+                }
+                if prefill == 0 {
+                    body = all[36..].to_vec();
+                }
             }
-            all[36..].to_vec()
+            body
         }
         _ => {
             let mut pb = acpi_tables::aml::PackageBuilder::new();
@@ -104,6 +124,25 @@ pub fn serialise(t: &dyn Aml) -> Vec<u8> {
             v[1 + pl + 1..].to_vec()
         }
     }
+}
+
+/// C14: a structure that can be handed to a table through its raw in-memory form (`add_structure`'s bound): the raw form
+/// must equal the serialised form, and the byte-sum helper the arithmetic sum of the serialised bytes.  Checked while the
+/// checksum-sink configuration is selected; a disagreement is counted like a sink disagreement.
+pub fn raw_check<T: Aml + zerocopy::IntoBytes + zerocopy::Immutable>(t: &T) {
+    if SINK_MODE.with(|m| m.get()) == 3 {
+        let mut v = Vec::new();
+        t.to_aml_bytes(&mut v);
+        let sum = v.iter().fold(0u8, |a, x| a.wrapping_add(*x));
+        if t.as_bytes() != v.as_slice() || acpi_tables::u8sum(t) != sum {
+            note_mismatch();
+        }
+    }
+}
+
+pub fn raw<T: Aml + zerocopy::IntoBytes + zerocopy::Immutable>(t: T) -> T {
+    raw_check(&t);
+    t
 }
 
 pub fn image(t: &dyn Aml) -> Ev {
